@@ -195,6 +195,8 @@ class C15(Check):
         # (b) cache / buffer decorators
         for tau in (16 * U, 256 * U, 2048 * U, 3 * U):
             yield {'kind': 'buffer', 'timeout': tau}
+            yield {'kind': 'buffer', 'timeout': tau, 'fail_first': 1}
+            yield {'kind': 'buffer', 'timeout': tau, 'fail_first': 2}
         for n in (1, 2, 3):
             yield {'kind': 'cache', 'nkeys': n}
         order = ['diff'] * sz['diff'] + ['multi'] * sz['multi']
@@ -360,7 +362,12 @@ class C15(Check):
                     loop = aio.new_event_loop()
                     aio.set_event_loop(loop)
 
+                    nfail = [case.get('fail_first', 0)]
+
                     async def func(args):
+                        if nfail[0] > 0:
+                            nfail[0] -= 1
+                            raise RuntimeError('scripted failure')
                         s.log.append(('fstart', sorted(args), s.now))
                     if form == 'deco_opts':
                         buf = A.buffer_until_timeout(timeout=tau)(func)
@@ -370,6 +377,12 @@ class C15(Check):
                         buf = A.BufferAsyncCalls(func, timeout=tau)
 
                     async def m():
+                        if case.get('fail_first'):
+                            # history first: a call that fails and is retried until it succeeds
+                            buf(0)
+                            await buf.wait()
+                            s.log.clear()
+                            await aio.sleep(2 * tau + 1.0)
                         buf(1)
                         await aio.sleep(tau / 2)
                         buf(2)
@@ -447,6 +460,36 @@ class C15(Check):
                 st['measured_cache'] += 1
                 res.nontrivial = True
         res.sample = {'nkeys': case['nkeys'], 'log': log[:12]}
+        # one configured decorator object (default cache) applied to two functions, compared with wrapping each directly
+        for how in ('options_object', 'direct'):
+            def main2(s, how=how):
+                def body():
+                    async def f1(k):
+                        return ('f1', k)
+
+                    async def f2(k):
+                        return ('f2', k)
+                    if how == 'options_object':
+                        deco = A.threadsafe_async_cache()
+                        c1, c2 = deco(f1), deco(f2)
+                    else:
+                        c1, c2 = A.threadsafe_async_cache(f1), A.threadsafe_async_cache(f2)
+
+                    async def m():
+                        for k in range(case['nkeys']):
+                            s.log.append(('got', how, await c1(k), await c2(k), await c1(k), await c2(k)))
+                    aio.run(m())
+                s.spawn(body, 'L')
+            r2 = simrt.execute(main2, simrt.Strategy('none'), lines=False, watchdog=30.0)
+            st['executions'] += 1
+            for e in r2.log:
+                if e[0] == 'got' and (e[2][0] != 'f1' or e[3][0] != 'f2' or e[4] != e[2] or e[5] != e[3]):
+                    res.violate(f'C15:decorator-object-shares-state:{how}',
+                                'two functions wrapped by one configured decorator object received each other\'s results',
+                                observed=e[2:])
+            if r2.verdict is not None or r2.thread_errors:
+                res.violate(f'C15:form-fails:cache:{how}', f'{r2.verdict} {r2.thread_errors[:1]}')
+            st['decorator_object_reused'] += 1
 
     def run_case(self, case):
         res = CaseResult()
@@ -469,7 +512,7 @@ class C15(Check):
     def floors(self, tier):
         k = 1 if tier == 'quick' else 20
         return {'measured_size': 100, 'measured_conc': 100, 'measured_bt': 80, 'measured_ret': 100,
-                'measured_timeout': 12, 'measured_cache': 6, 'differential_programs': 3000 * k,
+                'measured_timeout': 30, 'measured_cache': 6, 'decorator_object_reused': 6, 'differential_programs': 3000 * k,
                 'multi_successive_two_or_more_loops_served': 500 * k,
                 'multi_concurrent_two_or_more_loops_served': 500 * k}
 
